@@ -182,6 +182,15 @@ pub fn any_tiny_error() -> Error {
     }
 }
 
+/// Queue of 0..=3 items with concrete, distinct numbers (item i carries code i+1); only the
+/// first item's extended text is symbolic.  Formatting of arbitrary errors is C09's obligation.
+pub fn numbered_queue() -> KQueue {
+    let len: usize = kani::any();
+    kani::assume(len <= QCAP);
+    let first = if kani::any() { Error::custom(1, b"V") } else { Error::custom(1, b"V").extended(b"x") };
+    KQueue { items: [first, Error::custom(2, b"W"), Error::custom(3, b"X")], len }
+}
+
 pub fn any_dev_with(queue: KQueue) -> KDev {
     KDev {
         esr: kani::any(),
